@@ -32,6 +32,10 @@ type IP struct {
 	Notes  []IN `gorm:"polymorphic:Owner;polymorphicValue:xp"`
 	Boss   *IP  `gorm:"foreignKey:BK;references:K"`
 	Team   []IP `gorm:"foreignKey:BK;references:K"`
+	Code   string
+	Labels []IL `gorm:"polymorphic:Owner;polymorphicValue:xp;foreignKey:Code"`
+	Cover  *IC  `gorm:"polymorphic:Owner;polymorphicValue:xp;foreignKey:Code"`
+	Subs   []IU `gorm:"foreignKey:PCode;references:Code"`
 }
 type IO struct {
 	ID int64 `gorm:"primaryKey"`
@@ -72,6 +76,10 @@ type SP struct {
 	Notes  []SN `gorm:"polymorphic:Owner;polymorphicValue:xp"`
 	Boss   *SP  `gorm:"foreignKey:BK;references:K"`
 	Team   []SP `gorm:"foreignKey:BK;references:K"`
+	Code   string
+	Labels []SL `gorm:"polymorphic:Owner;polymorphicValue:xp;foreignKey:Code"`
+	Cover  *SC  `gorm:"polymorphic:Owner;polymorphicValue:xp;foreignKey:Code"`
+	Subs   []SU `gorm:"foreignKey:PCode;references:Code"`
 }
 type SO struct {
 	ID int64 `gorm:"primaryKey"`
@@ -217,4 +225,42 @@ type RG struct {
 	S string `gorm:"primaryKey"`
 	N int64  `gorm:"primaryKey;autoIncrement:false"`
 	Base
+}
+
+// ---------------- relations whose keys are overridden by tags (families I and S) ----------------
+// XL / XC: polymorphic has many / has one whose owner id references the NON-primary field Code
+// (`foreignKey:Code`); XU: has many with `references:Code`.
+type IL struct {
+	ID int64 `gorm:"primaryKey"`
+	Base
+	OwnerID   *string
+	OwnerType string
+}
+type IC struct {
+	ID int64 `gorm:"primaryKey"`
+	Base
+	OwnerID   *string
+	OwnerType string
+}
+type IU struct {
+	ID int64 `gorm:"primaryKey"`
+	Base
+	PCode *string
+}
+type SL struct {
+	ID int64 `gorm:"primaryKey"`
+	Base
+	OwnerID   *string
+	OwnerType string
+}
+type SC struct {
+	ID int64 `gorm:"primaryKey"`
+	Base
+	OwnerID   *string
+	OwnerType string
+}
+type SU struct {
+	ID int64 `gorm:"primaryKey"`
+	Base
+	PCode *string
 }
